@@ -59,7 +59,10 @@ def r17_1(ctx):
     else:
         ctx.bad("R17.1", cr.module, cr.qual, f"for ... in {norm(it)}", f"CREATE makes a directory for every path level but registers only `{norm(it)}` in the database: the other levels exist on disk and are missing from LIST until something touches them", reg[0].lineno)
     # the creation loop covers every prefix of the name
-    if norm(mk[0].iter) == "name.split('/')" and "'/'.join(mbox_chain)" in " ".join(norm(s, 200) for s in mk[0].body):
+    from .common import pm_of
+
+    pcr = pm_of(p, cr)
+    if pcr.has("for chain_name in name.split('/'):\n    mbox_chain.append(chain_name)\n    ...\n    mbox_name = '/'.join(mbox_chain)\n    ...\n    MH(server.maildir / mbox_name)\n    mbox_names.append(mbox_name)"):
         ctx.ok("R17.1", where(cr), "a directory is created for every '/'-prefix of the name")
     else:
         ctx.bad("R17.1", cr.module, cr.qual, "for chain_name in name.split('/')", "CREATE no longer creates every intermediate level", mk[0].lineno)
@@ -85,12 +88,12 @@ def r17_1(ctx):
             ctx.bad("R17.1", dl.module, dl.qual, what, f"after the folder is removed from disk DELETE can return without {what}: the mailbox stays listed / cached although it no longer exists", g.nodes[next(iter(rm))].line)
         else:
             ctx.ok("R17.1", where(dl), f"folder removal is followed by {what}")
-    t = norm(dl.node, 30000)
-    if "parent_name = os.path.dirname(name)" in t and "parent_mbox.check_set_haschildren_attr()" in t and "await parent_mbox.commit_to_db()" in t:
+    pdl = pm_of(p, dl)
+    if pdl.has("parent_name = os.path.dirname(name)") and pdl.has("if parent_name:\n    ...\n    parent_mbox = await server.get_mailbox(parent_name)\n    parent_mbox.check_set_haschildren_attr()\n    await parent_mbox.commit_to_db()"):
         ctx.ok("R17.1", where(dl), "parent's children flags refreshed and committed")
     else:
         ctx.bad("R17.1", dl.module, dl.qual, "parent_mbox.check_set_haschildren_attr(); commit_to_db()", "DELETE no longer refreshes the parent's \\HasChildren state", dl.node.lineno)
-    if "mbox.attributes.add('\\\\Noselect')" in t and "inferior_mailboxes or mbox.subscribed" in t:
+    if pdl.has("inferior_mailboxes = mbox.mailbox.list_folders()") and pdl.has("if inferior_mailboxes or mbox.subscribed:\n    ...\n    mbox.attributes.add('\\\\Noselect')\n    ..."):
         ctx.ok("R17.1", where(dl), "a mailbox with inferiors (or subscribed) becomes a \\Noselect placeholder instead of being removed")
     else:
         ctx.bad("R17.1", dl.module, dl.qual, "\\Noselect placeholder arm", "DELETE no longer keeps a \\Noselect placeholder for a mailbox with inferiors", dl.node.lineno)
@@ -99,23 +102,27 @@ def r17_1(ctx):
     inner = p.func("mbox._helper_rename_folder._do_rename_folder")
     ctx.analysed(rf)
     ctx.analysed(inner)
-    ti = norm(inner.node, 6000)
+    pin = pm_of(p, inner)
+    pin.has("mbox_old_name = old_mbox.name")
     for okv, what in (
-        ("UPDATE mailboxes SET name=? WHERE id=?" in ti and "(mbox_new_name, old_id)" in ti, "name column updated to the new name for that id"),
-        ("del srvr.active_mailboxes[mbox_old_name]" in ti or "active_mailboxes.pop(mbox_old_name" in ti, "old name removed from the active cache"),
-        ("srvr.active_mailboxes[mbox_new_name] = mb" in ti, "mailbox inserted into the active cache under the new name"),
-        ("mb.name = mbox_new_name" in ti and "mb.mailbox = srvr.mailbox.get_folder(mbox_new_name)" in ti, "in-memory name and MH handle switched to the new name"),
+        (pin.has("await srvr.db.execute('UPDATE mailboxes SET name=? WHERE id=?', (mbox_new_name, old_id))"), "name column updated to the new name for that id"),
+        (pin.has("mb = srvr.active_mailboxes[mbox_old_name]") and (pin.has("del srvr.active_mailboxes[mbox_old_name]") or pin.has("srvr.active_mailboxes.pop(mbox_old_name)")), "old name removed from the active cache"),
+        (pin.has("srvr.active_mailboxes[mbox_new_name] = mb"), "mailbox inserted into the active cache under the new name"),
+        (pin.has("mb.name = mbox_new_name") and pin.has("mb.mailbox = srvr.mailbox.get_folder(mbox_new_name)"), "in-memory name and MH handle switched to the new name"),
     ):
         if okv:
             ctx.ok("R17.1", where(inner), what)
         else:
             ctx.bad("R17.1", inner.module, inner.qual, what, f"RENAME lost: {what} - something stays reachable under the old name (e.g. re-creating the old name returns the renamed mailbox and never gets a row of its own)", inner.node.lineno)
+    prf = pm_of(p, rf)
+    prf.has("srvr = mbox.server")
+    prf.has("old_name = mbox.name")
     tr = norm(rf.node, 20000)
     for okv, what in (
-        ("SELECT name,id FROM mailboxes WHERE name=? OR name LIKE ?" in tr and "(old_name, f'{old_name}/%')" in tr, "the whole subtree (name and name/%) is selected for renaming"),
-        ("mbox_new_name = new_name + mbox_old_name[len(old_name):]" in tr, "each subtree member keeps its suffix under the new prefix"),
-        ("await srvr.db.commit()" in tr, "the name updates are committed"),
-        ("await aiofiles.os.rename(old_dir, new_dir)" in tr, "the directory is renamed"),
+        (prf.has("srvr.db.query('SELECT name,id FROM mailboxes WHERE name=? OR name LIKE ?', (old_name, f'{old_name}/%'))"), "the whole subtree (name and name/%) is selected for renaming"),
+        (prf.has("mbox_new_name = new_name + mbox_old_name[len(old_name):]"), "each subtree member keeps its suffix under the new prefix"),
+        (prf.has("await srvr.db.commit()"), "the name updates are committed"),
+        (prf.has("old_dir = mbox_msg_path(srvr.mailbox, old_name)") and prf.has("new_dir = mbox_msg_path(srvr.mailbox, new_name)") and prf.has("await aiofiles.os.rename(old_dir, new_dir)"), "the directory is renamed"),
         (tr.count("check_set_haschildren_attr()") >= 2, "old and new parents' children flags refreshed"),
     ):
         if okv:
@@ -131,8 +138,8 @@ def r17_1(ctx):
     # ---- subscribe
     for m, val in (("do_subscribe", True), ("do_unsubscribe", False)):
         fi = p.func(f"client.Authenticated.{m}")
-        t = norm(fi.node, 3000)
-        if f"mbox.subscribed = {val}" in t and "await mbox.commit_to_db()" in t:
+        psub = pm_of(p, fi)
+        if psub.has("mbox = await self.server.get_mailbox(cmd.mailbox_name)") and psub.has(f"mbox.subscribed = {val}") and psub.has("await mbox.commit_to_db()"):
             ctx.ok("R17.1", where(fi), f"subscribed = {val} stored and committed")
         else:
             ctx.bad("R17.1", fi.module, fi.qual, f"mbox.subscribed = {val}; commit_to_db()", f"{m[3:].upper()} no longer stores and commits the flag", fi.node.lineno)
@@ -158,14 +165,27 @@ def r17_2(ctx):
             ctx.analysed(fi)
             if consts[0].value != "inbox":
                 # comparing against 'INBOX' exactly (display form) - must be on a value just set to that form
-                if norm(other) in ("mbox_name", "ancestor_name", "ancestor"):
-                    ctx.ok("R17.2", where(fi), f"{norm(c)}: display form compared after normalisation", nontrivial=False)
+                if consts[0].value == "INBOX":
+                    # the upper-case display form only ever comes from the server's own normalisation
+                    ctx.ok("R17.2", where(fi), f"{norm(c)}: the server's own display form", nontrivial=False)
                     continue
             if isinstance(other, ast.Call) and call_name(other) in ("lower", "casefold"):
                 ctx.ok("R17.2", where(fi), f"{norm(c)} is case-insensitive")
             else:
                 ctx.bad("R17.2", fi.module, fi.qual, norm(c), "a mailbox name is compared with 'inbox' case-sensitively while the sibling sites use .lower(): a name such as \"INBOX\" given as a quoted string passes this test (e.g. `DELETE \"INBOX\"` is not refused and the inbox is emptied)", c.lineno)
     ctx.floor("R17.2", n, 6, "comparisons of a mailbox name with 'inbox'")
+
+
+def _assigned_display_form(fi, name) -> bool:
+    """The local was (conditionally) set to the constant 'INBOX' after a lower-case test in this function."""
+    for s in body_walk(fi.node):
+        if isinstance(s, ast.Assign) and any(isinstance(t, ast.Name) and t.id == name for t in s.targets):
+            v = s.value
+            if isinstance(v, ast.Constant) and v.value == "INBOX":
+                return True
+            if isinstance(v, ast.IfExp) and isinstance(v.body, ast.Constant) and v.body.value == "INBOX" and ".lower() == 'inbox'" in norm(v.test):
+                return True
+    return False
 
 
 def r17_4(ctx):
